@@ -3,7 +3,7 @@
     answers) and the witnesses stay in place (scan files are never written - C03; a torrent's own
     export files only ever receive correct bytes - C01). *)
 From TB Require Import Base Decimal BencodeModel TorrentModel TorrentProofs PathModel FsModel SolverModel FinderModel RunModel
-                       SolverProofs RunProofs FsProofs FaultProofs PreludeProofs TableProofs FinderProofs SearchProofs PresentProofs Generated GeneratedObligations SystemModel SystemProofs GlueProofs EstablishProofs CompleteProofs RunExample RerunProofs AvailProofs TerminationProofs.
+                       SolverProofs RunProofs FsProofs FaultProofs PreludeProofs TableProofs FinderProofs SearchProofs PresentProofs Generated GeneratedObligations SystemModel SystemProofs GlueProofs EstablishProofs CompleteProofs RunExample RerunProofs AvailProofs TerminationProofs WholeRunProofs.
 From Coq Require Import Permutation Sorted.
 Local Open Scope N_scope.
 
@@ -131,6 +131,46 @@ Theorem C02_present_piece_recovered_in_every_complete_run H content es0 ix es de
      forall sg, In sg (w_segs pc) -> e_pad (ps_entry sg) = false -> holds_seg content (s_fs s') sg).
 Proof. exact (present_piece_is_recovered_in_every_complete_run H content es0 ix es dev under pc s i). Qed.
 
+(** END TO END: for a run of loadable torrents ([run_setup]: table and work list built by the model's
+    [metadata_table], [populate], [work_of] from what the loader returned) every side condition about
+    the piece is discharged; what remains is about the world. *)
+Theorem C02_whole_run_present_piece_recovered H content export ts ix es ws f0 dev under i pc :
+  run_setup H content export ts ix es ws f0 (map (solve_prog H) ws) ->
+  nth_error ws i = Some pc ->
+  H (piece_bytes content pc) = w_hash pc -> Forall (pad_zero content) (w_segs pc) ->
+  ix_of_fs f0 dev under (metadata_table export ts 0) ix ->
+  Forall (seg_present_stable content f0 under (metadata_table export ts 0) es) (w_segs pc) ->
+  let s0 := {| s_fs := f0; s_pool := map (solve_prog H) ws |} in
+  (exists s', freach s0 s' /\ finished s') /\
+  (forall s', freach s0 s' -> finished s' ->
+     nth_error (s_pool s') i = Some (Ret Success) /\
+     forall sg, In sg (w_segs pc) -> e_pad (ps_entry sg) = false -> holds_seg content (s_fs s') sg).
+Proof. exact (whole_run_present_piece_recovered H content export ts ix es ws f0 dev under i pc). Qed.
+
+Example C02_whole_run_premises_hold :
+  run_setup Hid ex_content ex_export [ex_t] ex_ix ex_es ex_ws ex_f0 (map (solve_prog Hid) ex_ws) /\
+  nth_error ex_ws 0 = Some ex_pc /\ Hid (piece_bytes ex_content ex_pc) = w_hash ex_pc /\ Forall (pad_zero ex_content) (w_segs ex_pc) /\
+  ix_of_fs ex_f0 0 ex_under (metadata_table ex_export [ex_t] 0) ex_ix /\
+  Forall (seg_present_stable ex_content ex_f0 ex_under (metadata_table ex_export [ex_t] 0) ex_es) (w_segs ex_pc).
+Proof.
+  split; [exact ex_setup|]. split; [reflexivity|]. split; [reflexivity|]. split.
+  - vm_compute w_segs. constructor; [|constructor]. intros Hp. discriminate.
+  - exact (conj ex_ix_of_fs ex_present).
+Qed.
+
+(** The export part of [ix_of_fs] is what the prelude hands to the index: with every probe answered
+    by the file system, the continuation of the export probes receives exactly [export_registers]
+    of the table entries. *)
+Theorem C02_export_probes_register_the_index_set ans mutok (stat : path -> option listed) k es acc :
+  (forall e, In e es -> e_pad e = false ->
+     match ans (e_target e) (of_write index_open) with
+     | PFile n id => exists l, stat (e_target e) = Some l /\ l_len l = n /\ l_id l = id
+     | _ => stat (e_target e) = None
+     end) ->
+  run_prelude ans mutok (export_probes es acc k) =
+  run_prelude ans mutok (k (acc ++ flat_map (fun e => match export_registers stat e with Some x => [x] | None => [] end) es)).
+Proof. exact (export_probes_registers ans mutok stat k es acc). Qed.
+
 Print Assumptions C02_candidates_complete.
 Print Assumptions C02_candidates_sound.
 Print Assumptions C02_witnesses_give_combination.
@@ -142,3 +182,5 @@ Print Assumptions C02_stably_available_means_recovered.
 Print Assumptions C02_stable_availability_is_invariant.
 Print Assumptions C02_present_means_recovered.
 Print Assumptions C02_present_piece_recovered_in_every_complete_run.
+Print Assumptions C02_whole_run_present_piece_recovered.
+Print Assumptions C02_export_probes_register_the_index_set.
